@@ -574,6 +574,8 @@ fn eval_chain(ctx: &mut Ctx, uid: bool, calls: &[Call]) {
     ctx.queue(op, imp);
 }
 
+const BOUNDARY32: &[u32] = &[9, 10, 99, 100, 255, 256, 65535, 65536, (1 << 31) - 1, (1 << 31) + 1, u32::MAX - 1];
+
 fn alphabet(st: St, wide: bool) -> Vec<Call> {
     let mut v = vec![];
     let nums: &[u32] = if wide { &[1, 2, 1 << 31, u32::MAX] } else { &[1, u32::MAX] };
@@ -585,6 +587,17 @@ fn alphabet(st: St, wide: bool) -> Vec<Call> {
         if wide {
             v.push(Call::Range(u32::MAX, 2));
             v.push(Call::RangeFrom(u32::MAX));
+            // every end of a range at the ends of the number space and at equal ends
+            for (a, b) in [(1, u32::MAX), (u32::MAX, u32::MAX), (u32::MAX - 1, u32::MAX), (1, 1), (2, 1), (u32::MAX, 1),
+                           (1001, u32::MAX), (5, 5), (1, u32::MAX - 1), ((1 << 31) - 1, (1 << 31) + 1)] {
+                v.push(Call::Range(a, b));
+            }
+            for a in [1, u32::MAX - 1, (1 << 31) + 1] {
+                v.push(Call::RangeFrom(a));
+            }
+            for n in BOUNDARY32 {
+                v.push(Call::Num(*n));
+            }
         }
         v.push(Call::RangeFrom(2));
     };
@@ -594,6 +607,9 @@ fn alphabet(st: St, wide: bool) -> Vec<Call> {
         if wide {
             v.push(Call::ChangedSince(1 << 32));
             v.push(Call::ChangedSince(1 << 63));
+            for n in [2, (1u64 << 32) - 1, (1u64 << 32) + 1, (1u64 << 63) - 1, (1u64 << 63) + 1, u64::MAX - 1, 9, 10, 99, 100] {
+                v.push(Call::ChangedSince(n));
+            }
         }
     };
     match st {
@@ -676,7 +692,14 @@ fn run_c14(ctx: &mut Ctx, rng: &mut Rng, thorough: bool, shard: usize, shards: u
             if rng.chance(1, 3) {
                 c = match c {
                     Call::Num(_) => Call::Num(rng.range(1, u32::MAX as u64) as u32),
-                    Call::Range(_, _) => Call::Range(rng.range(1, u32::MAX as u64) as u32, rng.range(1, u32::MAX as u64) as u32),
+                    Call::Range(_, _) => {
+                        let mut end = |rng: &mut Rng| -> u32 {
+                            if rng.chance(1, 3) { *rng.pick(&[1u32, 2, u32::MAX, u32::MAX - 1, 1 << 31]) } else { rng.range(1, u32::MAX as u64) as u32 }
+                        };
+                        let a = end(rng);
+                        let b = end(rng);
+                        Call::Range(a, b)
+                    }
                     Call::RangeFrom(_) => Call::RangeFrom(rng.range(1, u32::MAX as u64) as u32),
                     Call::ChangedSince(_) => Call::ChangedSince(rng.range(1, u64::MAX - 1)),
                     x => x,
